@@ -105,6 +105,11 @@ func Generate(ctx context.Context, wd string, env []string, patterns []string, o
 		}
 		copyNonInjectorDecls(g, injectorFiles, pkg.TypesInfo)
 		goSrc := g.frame(opts.Tags)
+		if len(goSrc) == 0 {
+			// No injectors in this package: there is nothing to write,
+			// with or without a header.
+			continue
+		}
 		if len(opts.Header) > 0 {
 			goSrc = append(opts.Header, goSrc...)
 		}
